@@ -227,9 +227,14 @@ func runStackBFS(ctx *report.Ctx, maxLive, maxDepth int) {
 			for i, v := range model {
 				rank[v] = i
 			}
-			key := dump.StringElems(s, func(v int64) string { return fmt.Sprint(rank[int(v)]) })
-			// the spare capacity of the slice is part of the state of a slice-based stack
-			key += fmt.Sprintf("|cap%d", cap(*s))
+			// only the methods of the stack are used here; the representation is seen through the reflective dump
+			// alone (elements renumbered by rank: live payloads of a stack are not contiguous)
+			key := dump.StringElems(s, func(v int64) string {
+				if r, ok := rank[int(v)]; ok {
+					return fmt.Sprint(r)
+				}
+				return "d"
+			})
 			if seen[key] {
 				continue
 			}
